@@ -8,7 +8,8 @@ tie:    translator/gen_exec.py (tables, post-switch check, digests of the modell
 oracle: on the library's output only: B = boolean(G), N = number(G), S = F = string(G), L = G when G
         is a node-set and an error otherwise, the conversions computed in Python from the generic
         result G per XPath 1.0 section 4 (string-values from the generated document); and the same
-        at stylesheet level (xsl:if / xsl:when / xsl:value-of / AVT / xsl:number value / numeric sort key)."""
+        at stylesheet level (xsl:if / xsl:when / xsl:value-of / AVT / numeric sort key), also under
+        xsl:strip-space / preserve-space with whitespace-only text inside the selected elements."""
 import os, re, math, struct
 import xml.etree.ElementTree as ET
 from vlib import core, xpgen, xpref, xsltrun
@@ -91,6 +92,29 @@ def expected_from_generic(G, ref):
     ids = G[1]
     s = ref.string_value(ids[0]) if ids else ""
     return {"B": ("b", len(ids) > 0), "N": ("n", xpref.str_to_num(s)), "S": ("s", s), "F": ("s", s), "L": ("ns", ids)}
+
+
+NUMSTR = re.compile(r"(-?)(0|[1-9][0-9]*)(\.[0-9]*[1-9])?")
+
+
+def num_str_ok(s, x):
+    """s is a string(x) in the sense of XPath 1.0 section 4.2: NaN / Infinity / 0 exactly; otherwise a
+       canonical decimal (no exponent, no leading zeros, no trailing '.' or fraction zeros, '-' iff
+       negative) that denotes exactly the double x.  How many digits the library prints beyond the
+       ones needed to identify x is the business of C18, not of this property."""
+    if x != x:
+        return s == "NaN"
+    if math.isinf(x):
+        return s == ("Infinity" if x > 0 else "-Infinity")
+    if x == 0:
+        return s == "0"
+    m = NUMSTR.fullmatch(s)
+    if not m or (m.group(1) == "-") != (x < 0):
+        return False
+    try:
+        return float(s) == x
+    except ValueError:
+        return False
 
 
 def field_ok(got, exp):
@@ -331,7 +355,11 @@ def check_line(c, ri, ref):
     bad = []
     for name in "BNSFL":
         got = parse_field(d[name])
-        if not field_ok(got, exp[name]):
+        if name in "SF" and G[0] == "n":
+            ok = got[0] == "s" and num_str_ok(got[1], G[1])
+        else:
+            ok = field_ok(got, exp[name])
+        if not ok:
             bad.append((name, "%s: generic result %s, entry point %s delivers %s, the conversion of the generic result is %s" % (
                 c["str"], d["G"], name, d[name], show(exp[name])), foreign_class(name, G, got, exp[name], ref)))
     return bad
@@ -572,6 +600,12 @@ def run_sheet_cases(ctx, scases, impl):
         if foreign_class("S", G, ("s", ""), exp["S"], ref):
             continue
         norm = lambda t: t.replace("\r\n", "\n").replace("\r", "\n")
+        if G[0] == "n":
+            # any canonical decimal denoting the number is a string() of it (digit count: C18)
+            for cand in (norm(text_of(root.find("vo"))), root.find("avt").get("a")):
+                if num_str_ok(cand, G[1]):
+                    es = cand
+                    break
         obs = {"xsl:if": (text_of(root.find("if")) == "T", eb), "xsl:when": (text_of(root.find("when")) == "T", eb),
                "xsl:value-of": (norm(text_of(root.find("vo"))), norm(es)),
                "AVT": (root.find("avt").get("a"), attr_norm(es)),
@@ -605,6 +639,268 @@ def attr_norm(s):
     # the output was serialised and re-parsed: attribute value normalisation does not apply to
     # character references, so the value comes back as it was
     return s.replace("\r\n", "\n")
+
+
+# ------------------------------------------------------------------------------------------------
+# stylesheet level with xsl:strip-space: whitespace-only text nodes inside the selected elements must
+# be invisible to EVERY entry point (string-value of an element is built by DOMServices::getNodeData,
+# which asks the execution context whether a text node is stripped only when it is given one)
+
+class SNode:
+    __slots__ = ("kind", "name", "text", "children", "parent", "order")
+
+    def __init__(self, kind, name="", text=""):
+        self.kind, self.name, self.text = kind, name, text
+        self.children, self.parent, self.order = [], None, -1
+
+
+WS = [" ", "\n  ", "\n", "\t", "  \n    "]
+
+
+def gen_ws_doc(r):
+    """<r> with indented element children (whitespace-only text between them) and some real text"""
+    counter = [0]
+
+    def el(name, depth):
+        n = SNode("e", name)
+        items = []
+        for _ in range(r.randrange(0, 4)):
+            k = r.random()
+            if depth > 0 and k < 0.55:
+                items.append(el(r.choice(["a", "b", "name", "c"]), depth - 1))
+            else:
+                items.append(SNode("t", text=r.choice(["1", "7", "x", "2.5", "ab", " 3 ", "-1"])))
+        out = []
+        indent = r.random() < 0.85
+        for it in items:
+            if indent and (not out or out[-1].kind != "t") and it.kind != "t":
+                out.append(SNode("t", text=r.choice(WS)))
+            if out and out[-1].kind == "t" and it.kind == "t":
+                continue
+            out.append(it)
+        if indent and out and out[-1].kind != "t":
+            out.append(SNode("t", text=r.choice(WS)))
+        for c in out:
+            c.parent = n
+        n.children = out
+        return n
+    root = SNode("e", "r")
+    kids = [el(r.choice(["name", "a", "b", "a", "name"]), 2) for _ in range(r.randrange(2, 6))]
+    out = [SNode("t", text="\n  ")]
+    for kd in kids:
+        out.append(kd)
+        out.append(SNode("t", text=r.choice(WS)) if r.random() < 0.85 else SNode("t", text=r.choice(["5", "q"])))
+    for c in out:
+        c.parent = root
+    root.children = out
+
+    def number(n):
+        n.order = counter[0]
+        counter[0] += 1
+        for c in n.children:
+            number(c)
+    number(root)
+    return root
+
+
+def ws_xml(n):
+    if n.kind == "t":
+        return esc(n.text)
+    return "<%s>%s</%s>" % (n.name, "".join(ws_xml(c) for c in n.children), n.name)
+
+
+def is_ws(t):
+    return t != "" and all(ch in " \t\r\n" for ch in t)
+
+
+class StripRef:
+    """string-values and the few location paths of this stream, per XSLT 1.0 section 3.4"""
+
+    def __init__(self, root, strip, preserve):
+        self.root, self.strip, self.preserve = root, strip, preserve
+
+    def stripped(self, t):
+        if t.kind != "t" or not is_ws(t.text):
+            return False
+        p = t.parent.name
+        if p in self.preserve:
+            return False
+        if p in self.strip:
+            return True
+        if "*" in self.preserve:
+            return False
+        return "*" in self.strip
+
+    def sv(self, n):
+        if n.kind == "t":
+            return n.text
+        return "".join(self.sv(c) for c in n.children if not self.stripped(c))
+
+    def kids(self, n, name=None):
+        return [c for c in n.children if c.kind == "e" and (name is None or c.name == name)]
+
+    def desc(self, n, name):
+        out = []
+        for c in n.children:
+            if c.kind == "e":
+                if c.name == name:
+                    out.append(c)
+                out += self.desc(c, name)
+        return out
+
+    def select(self, key, ctxn):
+        k = self.kids
+        if key == "name":
+            return k(ctxn, "name")
+        if key == "*":
+            return k(ctxn)
+        if key == "*[2]":
+            return k(ctxn)[1:2]
+        if key == "*[last()]":
+            return k(ctxn)[-1:]
+        if key == "a/b":
+            return [b for a in k(ctxn, "a") for b in k(a, "b")]
+        if key == ".":
+            return [ctxn]
+        if key == "descendant::b":
+            return self.desc(ctxn, "b")
+        if key == "a | name":
+            return sorted(k(ctxn, "a") + k(ctxn, "name"), key=lambda n: n.order)
+        if key == "(name)":
+            return k(ctxn, "name")
+        if key == "$v":
+            return k(self.root, "name")
+        if key == "name/..":
+            return [ctxn] if k(ctxn, "name") else []
+        if key == "text()":
+            return [c for c in ctxn.children if c.kind == "t" and not self.stripped(c)]
+        if key == "*/text()":
+            return [c for e in k(ctxn) for c in e.children if c.kind == "t" and not self.stripped(c)]
+        if key == "(a | b)[1]":
+            return sorted(k(ctxn, "a") + k(ctxn, "b"), key=lambda n: n.order)[:1]
+        raise KeyError(key)
+
+
+STRIP_PATHS = ["name", "*", "*[2]", "*[last()]", "a/b", ".", "descendant::b", "a | name", "(name)", "$v", "name/..",
+               "text()", "*/text()", "(a | b)[1]"]
+STRIP_DECLS = [(["*"], []), (["*"], ["b"]), (["name", "a", "r"], []), (["r", "b"], []), ([], []), (["*"], ["name"])]
+
+STRIP_SHEET = """<xsl:stylesheet version="1.0" xmlns:xsl="http://www.w3.org/1999/XSL/Transform">
+<xsl:output method="xml" encoding="UTF-8" omit-xml-declaration="yes"/>
+%(decl)s
+<xsl:variable name="v" select="/r/name"/>
+<xsl:template match="/">
+<out><xsl:for-each select="/r">
+<avt a="{%(e)s}" b="[{%(e)s}|{%(e)s}]"/>
+<vo><xsl:value-of select="%(e)s"/></vo>
+<gs><xsl:value-of select="string(%(e)s)"/></gs>
+<cc><xsl:value-of select="concat('[', %(e)s, ']')"/></cc>
+<num><xsl:value-of select="number(%(e)s)"/></num>
+<gnum><xsl:value-of select="number(string(%(e)s))"/></gnum>
+<plus><xsl:value-of select="%(e)s + 0"/></plus>
+<len><xsl:value-of select="string-length(%(e)s)"/></len>
+<glen><xsl:value-of select="string-length(string(%(e)s))"/></glen>
+<if><xsl:if test="%(e)s">T</xsl:if></if>
+<cnt><xsl:value-of select="count(%(e)s)"/></cnt>
+<eq><xsl:if test="%(e)s = string(%(e)s)">T</xsl:if></eq>
+<copy><xsl:copy-of select="%(e)s"/></copy>
+<each><xsl:for-each select="%(e)s"><xsl:copy-of select="."/></xsl:for-each></each>
+<st><xsl:for-each select="*"><xsl:sort select="%(k)s"/><i><xsl:value-of select="count(preceding-sibling::*)"/>,</i></xsl:for-each></st>
+<sg><xsl:for-each select="*"><xsl:sort select="string(%(k)s)"/><i><xsl:value-of select="count(preceding-sibling::*)"/>,</i></xsl:for-each></sg>
+<nt><xsl:for-each select="*"><xsl:sort select="%(k)s" data-type="number"/><i><xsl:value-of select="count(preceding-sibling::*)"/>,</i></xsl:for-each></nt>
+<ng><xsl:for-each select="*"><xsl:sort select="number(string(%(k)s))" data-type="number"/><i><xsl:value-of select="count(preceding-sibling::*)"/>,</i></xsl:for-each></ng>
+</xsl:for-each></out>
+</xsl:template>
+</xsl:stylesheet>"""
+
+SORT_KEYS = [".", "*", "b", "name", "*[last()]", "a | b", "text()", "(*)"]
+
+
+def gen_strip_cases(ctx, n_docs, per_doc):
+    r = ctx.rng
+    out, k = [], 0
+    for di in range(n_docs):
+        root = gen_ws_doc(r)
+        src = ws_xml(root)
+        strip, preserve = STRIP_DECLS[di % len(STRIP_DECLS)] if di < len(STRIP_DECLS) else r.choice(STRIP_DECLS)
+        decl = ""
+        if strip:
+            decl += '<xsl:strip-space elements="%s"/>' % " ".join(strip)
+        if preserve:
+            decl += '<xsl:preserve-space elements="%s"/>' % " ".join(preserve)
+        paths = list(STRIP_PATHS)
+        r.shuffle(paths)
+        for e in paths[:per_doc]:
+            key = r.choice(SORT_KEYS)
+            out.append({"id": "w%d" % k, "e": e, "k": key, "root": root, "source": src, "strip": strip, "preserve": preserve,
+                        "sheet": STRIP_SHEET % {"decl": decl, "e": esc(e, True), "k": esc(key, True)}})
+            k += 1
+    return out
+
+
+def run_strip_cases(ctx, wcases):
+    if not wcases:
+        return []
+    res = xsltrun.run([{"id": c["id"], "sheet": c["sheet"], "source": c["source"]} for c in wcases])
+    bad = []
+    for c in wcases:
+        ctx.cov["evaluations"] += 1
+        ctx.count("strip:" + ("none" if not c["strip"] else "+".join(c["strip"]) + ("-" + "+".join(c["preserve"]) if c["preserve"] else "")))
+        out = res.get(c["id"])
+        if out is None or out[0] != "ok":
+            bad.append((c, "the transformation %s" % ("crashed" if out is None or out[0] == "crash" else "failed: " + out[2][:160])))
+            continue
+        try:
+            root = ET.fromstring(out[1].decode("utf-8"))
+        except Exception as ex:
+            bad.append((c, "unparsable output: %s" % ex))
+            continue
+        ref = StripRef(c["root"], c["strip"], c["preserve"])
+        sel = ref.select(c["e"], c["root"])
+        S = ref.sv(sel[0]) if sel else ""
+        if sel and any(is_ws(t.text) for n in sel[:1] for t in all_text(n)):
+            ctx.count("strip:first-node-holds-whitespace-only-text")
+        x = xpref.str_to_num(S)
+        N = xpref.num_to_str(x)
+        g = lambda tag: text_of(root.find(tag))
+        want = {
+            "AVT (string entry point)": (root.find("avt").get("a"), S),
+            "three-part AVT": (root.find("avt").get("b"), "[" + S + "|" + S + "]"),
+            "xsl:value-of (character events)": (g("vo"), S),
+            "string(E) (generic, converted)": (g("gs"), S),
+            "concat('[', E, ']') (generic argument)": (g("cc"), "[" + S + "]"),
+            "number(E) (double entry point)": (g("num"), N),
+            "number(string(E))": (g("gnum"), N),
+            "E + 0 (numeric operand)": (g("plus"), xpref.num_to_str(x + 0.0) if x == x else "NaN"),
+            "string-length(E) (character events, counted)": (g("len"), str(len(S.encode("utf-16-le")) // 2)),
+            "string-length(string(E))": (g("glen"), str(len(S.encode("utf-16-le")) // 2)),
+            "xsl:if (bool entry point)": (g("if") == "T", len(sel) > 0),
+            "count(E) (node-list entry point)": (g("cnt"), str(len(sel))),
+            "E = string(E)": (g("eq") == "T", any(ref.sv(n) == S for n in sel)),
+        }
+        for what, (got, exp) in want.items():
+            if what in ("number(E) (double entry point)", "number(string(E))", "E + 0 (numeric operand)"):
+                if got is not None and num_str_ok(got, x):
+                    continue
+            if got != exp:
+                bad.append((c, "%s observes %r; the value of the expression (first node's string-value under strip-space %s preserve-space %s) gives %r" % (
+                    what, got, c["strip"], c["preserve"], exp)))
+        ser = lambda el: "".join(ET.tostring(x, encoding="unicode") for x in el) + (el.text or "")
+        if ser(root.find("copy")) != ser(root.find("each")):
+            bad.append((c, "xsl:copy-of select=E copies %r, xsl:for-each select=E + copy-of . copies %r" % (ser(root.find("copy"))[:120], ser(root.find("each"))[:120])))
+        # sort keys: the text key is the string entry point, the number key the double entry point; the
+        # same keys computed generally (string(K), number(string(K))) must sort the same way
+        if g("st") != g("sg"):
+            bad.append((c, "text sort key %s orders the items %r, sort key string(%s) orders them %r" % (c["k"], g("st"), c["k"], g("sg"))))
+        if g("nt") != g("ng"):
+            bad.append((c, "numeric sort key %s orders the items %r, sort key number(string(%s)) orders them %r" % (c["k"], g("nt"), c["k"], g("ng"))))
+    return bad
+
+
+def all_text(n):
+    if n.kind == "t":
+        return [n]
+    return [t for c in n.children for t in all_text(c)]
 
 
 # ------------------------------------------------------------------------------------------------
@@ -678,13 +974,15 @@ def run(ctx):
     except RuntimeError as ex:
         ctx.broken.append("stylesheet driver: %s" % ex)
         sbad = []
-    if (corr or not proved or not model) and not orc and not sbad and not ctx.thorough:
+    wbad = run_strip_cases(ctx, gen_strip_cases(ctx, 12 if not ctx.thorough else 150, 8))
+    if (corr or not proved or not model) and not orc and not sbad and not wbad and not ctx.thorough:
         ctx.escalated = True
         c2, o2 = evaluate(ctx, gen_cases(ctx, 150, 40, 4, prefix="y"), impl, model)
         corr += c2
         orc += o2
         if not orc:
             sbad += run_sheet_cases(ctx, gen_sheet_cases(ctx, 40, 20), impl)
+            wbad += run_strip_cases(ctx, gen_strip_cases(ctx, 80, 10))
     if corr:
         ctx.broken.append("correspondence exec: %d of %d cases differ between the six-entry-point model and the library, e.g. %s" % (
             len(corr), ctx.cov["traces_validated_against_impl"], {k: corr[0][k] for k in ("expr", "impl", "model")}))
@@ -698,6 +996,12 @@ def run(ctx):
         txt = "\n".join("# %s: %s\n#   stylesheet-level replay: expression %r over source %s\n%s" % (
             c["str"], what, c["str"], c["source"][:300].replace("\n", "\\n"), "\n".join(c["lines"][:1])) for c, what in sbad[:20])
         ctx.violation("stylesheet", "# C11: a stylesheet construct observes a value that is not the conversion of the expression's generic value\n" + txt)
+    if wbad:
+        txt = "\n".join("# %s (sort key %s): %s\n#   source: %s\n#   stylesheet: %s" % (
+            c["e"], c["k"], what, c["source"].replace("\n", "\\n").replace("\t", "\\t"), c["sheet"].replace("\n", " ")) for c, what in wbad[:20])
+        ctx.violation("stripspace", "# C11: under xsl:strip-space one location path is observed with different values through different entry points\n"
+                                    "# replay: run the stylesheet over the source (vlib/xsltrun.py) and compare the named elements of the output\n" + txt)
+    ctx.notes["stripspace_failures"] = len(wbad)
     ctx.notes["oracle_failures"] = len(orc)
     ctx.notes["stylesheet_failures"] = len(sbad)
     return ctx.finish(LEVEL, explanation="table theorems over the regenerated switch tables + induction over the six mutually recursive entry points against the generic interpreter model + correspondence of the extracted model with the six XPath::execute overloads + conversion oracle on the library's own results, also at stylesheet level")
